@@ -10,6 +10,10 @@ CHECKS = {
          "Exploration: every input runs through ReadToken-to-EOF, ParseQuery, ParseSchema and the token-limited entry points in isolated worker processes; panics, fatal exits (stack exhaustion), hangs, step-budget overruns (deterministic hook counters, linear budget), nil-document-and-nil-error results and syntax-error locations outside the input are violations. ~190k inputs quick, ~3.7M thorough, bombs to 8 MiB under limits.",
          "Polynomial time is decided on logical step counts, not wall time; unlimited parsing explored to 64 KiB inputs; token limits to 100 000.",
          "DESIGN.md §4 C01"),
+ "C02": ("crash/fatal/hang monitor in isolated workers + deterministic hook step counters: absolute budget C*n^2*log n per load/validation and doubling-ratio growth test on 20 size-parametrised adversarial families",
+         "Exploration: 7k (quick) / 180k (thorough) schema texts (valid, 1-2 injected faults, random and token-mutated SDL) through LoadSchema and 11k / 290k documents (valid, 0-3 faults, collision, type-blind) through Validate (twice per tree), all under a step budget; 20 families (fragment fan-out under field/__schema/__type/subscription/aliases/inline fragments, cycles through fields, mutual spreads, alias chains, sibling floods, deep literals, @oneOf variables, loader chains/diamonds/unions/extensions) measured at k and 2k for k=4..32 (64 thorough) with ratio <= 24.",
+         "Steps are hook counts (deterministic); loops without a hook fall back to the worker watchdog (600 s). One defect repaired (f60b1e2, exponential introspection-depth rule); crashes found through C07/C08 workloads are recorded there.",
+         "DESIGN.md §4 C02"),
  "C03": ("reference-model monitor: independent spec-transcribed lexer compared token by token with lexer.ReadToken; metamorphic ignored-token insertion",
          "Exploration with exhaustive sub-spaces: all strings up to length 5 (quick) / 6 (thorough) over 19 lexically significant symbols and all block-string bodies up to 7 / 9 over 6 symbols, plus random Unicode token soups; kinds, character extents, semantic values and failure points compared with a reference lexer written from the October 2021 grammar.",
          "Trusts the reference lexer; abstains on invalid UTF-8, code points above U+FFFF and surrogate \\u escapes. One recorded known finding (block-string close run).",
